@@ -108,6 +108,11 @@ func (s *sys) violation(v string) {
 	s.viol = append(s.viol, v)
 	s.mu.Unlock()
 }
+func (s *sys) recovered() {
+	if e := recover(); e != nil {
+		s.violation(fmt.Sprintf("panic: %v", e))
+	}
+}
 func (s *sys) newThread() int { s.mu.Lock(); t := s.nthr; s.nthr++; s.mu.Unlock(); return t }
 
 type inStream struct {
@@ -263,8 +268,9 @@ func (s *sys) spawn(write bool) int {
 	tid := s.newThread()
 	atomic.AddInt32(&s.live, 1)
 	go func() {
+		defer atomic.AddInt32(&s.live, -1)
+		defer s.recovered()
 		s.call(tid, write)
-		atomic.AddInt32(&s.live, -1)
 	}()
 	return tid
 }
@@ -545,6 +551,7 @@ func runConc(id string, r *rng) (res result) {
 		go func() {
 			defer wg.Done()
 			defer atomic.AddInt32(&s.live, -1)
+			defer s.recovered()
 			time.Sleep(d0)
 			for k := 0; k < ncalls; k++ {
 				s.call(tid, write)
@@ -579,6 +586,7 @@ func runConc(id string, r *rng) (res result) {
 		cwg.Add(1)
 		go func() {
 			defer cwg.Done()
+			defer s.recovered()
 			time.Sleep(d)
 			s.closeConn(tid)
 		}()
